@@ -107,6 +107,17 @@ def c13_program(rng):
         wrap = rng.randrange(5)
         core = [A.Select(inner, A.Alias("Byte")), A.Optional(inner), A.GreedyRange(A.Select(A.Const(b"\x01"), inner)),
                 A.Peek(inner), A.Select(A.Alias("Int16ub"), inner, A.Pass)][wrap]
+    if rng.random() < 0.14:
+        # predicates that are not comparisons: bit tests and arithmetic whose value is an integer (admitted iff truthy), bitwise or / and of integers
+        O = A.Obj
+        pred = rng.choice([A.Bin("&", O, A.C(0x80)), A.Bin("%", O, A.C(2)), A.Bin("==", A.Bin("|", O, A.C(1)), O), A.Bin("==", A.Bin("|", O, A.C(0x0f)), A.C(0xff)),
+                           A.Bin("-", O, A.C(3)), A.Bin("&", A.Bin(">", O, A.C(1)), A.Bin("<", O, A.C(200))), A.Bin("|", A.Bin("==", O, A.C(0)), A.Bin("&", O, A.C(6))),
+                           A.Bin("^", O, A.C(5)), A.Uni("not", A.Bin("&", O, A.C(1))), A.Bin(">>", O, A.C(7))])
+        if rng.random() < 0.6:
+            core = A.ExprValidator(rng.choice([A.Alias("Byte"), A.Alias("Int8sb"), A.Alias("Int16ub")]), pred)
+        else:
+            import json as _j
+            core = A.Struct(A.Renamed("v", A.Alias("Byte")), A.Check(_j.loads(_j.dumps(pred).replace(_j.dumps(O), _j.dumps(A.T("v"))))))
     if rng.random() < 0.12:
         # the constrained member may be absent (None): the constraint still applies to what is returned
         opt = rng.choice([A.Optional(A.Alias("Byte")), A.If(A.C(False), A.Alias("Byte")), A.Select(A.Const(b"\x07"), A.Pass), A.IfThenElse(A.C(True), A.Pass, A.Alias("Byte"))])
